@@ -523,11 +523,11 @@ func init() {
 	register(&PropSpec{
 		ID:    "C12",
 		Level: "other",
-		Decided: "(a) every kind the documentation calls empty-able has an arm in the omitempty resolver and size kinds are decided by Len()>0, IsZeroer is the default fall-back; (b) no folder that was looked up or built is discarded (the user-folder lookup for inlined fields is live); (c) member names: tag name verbatim, else lower-cased field name - on the fold and on the unfold side; (d) dispatch order user folders -> built-in fast paths -> Folder interface -> named-type conversion -> reflection; inline expansion strips exactly one object level and forwards nothing outside it (R6 on ExpectObjVisitor). (e) OMIT-FIRST: nothing is built or registered for a field before its omit option was found false, on the fold and on the unfold side; (f) ExpectObjVisitor is re-armed with a reset depth (R6 REARM); (g) an inlined field is compiled and looked up under the inline registry key (R10 GETTER).",
+		Decided: "(a) every kind the documentation calls empty-able has an arm in the omitempty resolver and size kinds are decided by Len()>0, IsZeroer is the default fall-back; (b) no folder that was looked up or built is discarded (the user-folder lookup for inlined fields is live); (c) member names: tag name verbatim, else lower-cased field name - on the fold and on the unfold side; (d) dispatch order user folders -> built-in fast paths -> Folder interface -> named-type conversion -> reflection; inline expansion strips exactly one object level and forwards nothing outside it (R6 on ExpectObjVisitor). (e) OMIT-FIRST: nothing is built or registered for a field before its omit option was found false, on the fold and on the unfold side; (f) ExpectObjVisitor is re-armed with a reset depth (R6 REARM); (g) an inlined field is compiled and looked up under the inline registry key (R10 GETTER). A fast path that reinterprets map memory is selected by type identity, so that it cannot bypass the folder of a named element type (R16 TYPE-GATE).",
 		NotDecided: "which fields are emitted for which value (needs an executable model of the tag rules compared on generated types - a different family); pointer depth handling of omitempty; number exactness.",
 		Assumptions: []string{"the documented rules (tags.go comment, README) are the oracle; anchors: makeResolveNonEmptyValue, buildFieldFold, fieldUnfolders, foldInterfaceValue"},
 		TrustedBase: baseTrusted,
-		Rules:       []RuleRun{{"R20", R20}, {"R6", R6("visitors")}, {"R10", R10}},
+		Rules:       []RuleRun{{"R20", R20}, {"R6", R6("visitors")}, {"R10", R10}, {"R16", R16}},
 		LevelText:   "Structural necessary conditions: each documented rule must have live code at its mechanism anchor. Checked on the typed syntax tree and SSA, so a rule that silently lost its code (dead result, missing kind arm, swapped dispatch order) is reported although every fixture still passes.",
 		Technique:   "typed-AST rule coverage of the omitempty kind switch, dead-result query on SSA for folder-producing calls, SSA shape check of the member-name derivation on both sides, dominance order of dispatch anchors; omit-before-everything path rule on fold and unfold side; re-arm reset rule for ExpectObjVisitor; registry-key typing of inline folders via the grammar getter table",
 		DesignRef:   "DESIGN.md section 2 R20; section 3 C12",
